@@ -577,7 +577,55 @@ theorem MetaHead_extraSlot (r : GbRec) (ℓ : RecLayout) (k : Nat) (X : List Str
 
 theorem MetaHead_extraRest (r : GbRec) (ℓ : RecLayout) (X : List Str)
     (he : ∀ e ∈ r.extras, isExtraKey e.1 = true) (hX : MetaHead X) : MetaHead (extraRest r ℓ ++ X) :=
-  MetaHead_extras _ _ X (fun e hm => he e (List.mem_of_mem_drop hm)) hX
+  MetaHead_extras _ _ X (fun e hm => he e (List.mem_of_mem_drop (List.mem_of_mem_take hm))) hX
+
+/-- a line at which the feature table ends: a keyword line that is no feature-table line -/
+def FeatEnd (X : List Str) : Prop := ∃ m rest, X = m :: rest ∧ quickMetaCheck m = .ok true ∧ FStop m
+
+theorem dropWhile_snoc_ne (p : Char → Bool) (A : Str) (x : Char) (hx : p x = false) : (A ++ [x]).dropWhile p ≠ [] := by
+  induction A with
+  | nil => simp [List.dropWhile, hx]
+  | cons a as ih =>
+    by_cases ha : p a = true
+    · simpa [List.dropWhile, ha] using ih
+    · simp [List.dropWhile, ha]
+
+theorem trimSpace_cons_ne (x : Char) (r : Str) (hx : isSpace x = false) : trimSpace (x :: r) ≠ [] := by
+  simp only [trimSpace, trimLeftSpace, dropWhile_of_head hx, trimRightSpace]
+  intro h
+  have := congrArg List.reverse h
+  simp only [List.reverse_reverse, List.reverse_nil, List.reverse_cons] at this
+  exact dropWhile_snoc_ne isSpace r.reverse x hx this
+
+theorem kwLine_FStop (kw c0 : Str) (h : KwOK kw) : FStop (padRight kw 12 ++ c0) := by
+  obtain ⟨x, xs, rfl⟩ : ∃ x xs, kw = x :: xs := by
+    cases kw with | nil => exact absurd rfl h.1 | cons x xs => exact ⟨x, xs, rfl⟩
+  have hx := h.2.2.2 x rfl
+  have h1 : x ≠ ' ' := by rintro rfl; revert hx; decide
+  have hsx : isSpace x = false := (isVisible_facts (h.2.2.1 x (by simp))).2.1
+  have hhead : ∃ r, padRight (x :: xs) 12 ++ c0 = x :: r := ⟨_, rfl⟩
+  obtain ⟨r0, hr0⟩ := hhead
+  rw [hr0]
+  refine ⟨?_, ?_, ?_⟩
+  · simp [quickQualifierCheck, Str.at, h1]
+  · simp [quickQualifierSubLineCheck, Str.at, h1]
+  · intro ⟨_, h2, _⟩
+    have : (x :: r0).take qualifierIndex = x :: r0.take 20 := rfl
+    rw [this] at h2
+    exact trimSpace_cons_ne x _ hsx h2
+
+theorem FeatEnd_extras (es : List (Str × Str)) (ls : List (List Nat)) (X : List Str)
+    (he : ∀ e ∈ es, isExtraKey e.1 = true) (hX : FeatEnd X) : FeatEnd (extrasLines es ls ++ X) := by
+  cases es with
+  | nil => exact hX
+  | cons e r =>
+    obtain ⟨k, t⟩ := e
+    have hk := (extraKey_facts (he (k, t) (by simp))).1
+    rw [extrasLines_cons, List.append_assoc, block_eq]
+    exact ⟨_, _, rfl, (kwLine_kw k _ hk).2, kwLine_FStop k _ hk⟩
+
+theorem FeatEnd.metaHead {X : List Str} (h : FeatEnd X) : MetaHead X := by
+  obtain ⟨m, rest, rfl, hm, _⟩ := h; exact ⟨m, rest, rfl, hm⟩
 
 /-- slot `k`: the blocks written there are added to `Other`, which then holds the first
 `off (k+1)` extra blocks of the record -/
@@ -591,23 +639,29 @@ theorem parseLoop_extraSlot (r : GbRec) (ℓ : RecLayout) (k : Nat) (X : List St
   rw [parseLoop_extras _ _ X s (fun e hm => he e (List.mem_of_mem_drop (List.mem_of_mem_take hm))) h1
     (by rw [hs]; exact h2) hX, hs, off_succ, List.take_add]
 
-theorem parseLoop_extraRest (r : GbRec) (ℓ : RecLayout) (X : List Str) (s : Sequence)
+/-- a slice of the extra blocks: `Other` held the first `m`, then holds the first `m + c` -/
+theorem parseLoop_extrasSlice (r : GbRec) (m c : Nat) (bl : List (List Nat)) (X : List Str) (s : Sequence)
     (he : ∀ e ∈ r.extras, isExtraKey e.1 = true ∧ isText e.2 = true) (hd : distinct (r.extras.map (·.1)) = true)
-    (hs : s.md.other = r.extras.take (off ℓ.extraCuts 6)) (hX : MetaHead X) :
-    parseLoop (extraRest r ℓ ++ X) s = parseLoop X { s with md := { s.md with other := r.extras } } := by
-  have := slice_keys r.extras (off ℓ.extraCuts 6) (r.extras.length) hd
-  have hfull : (r.extras.drop (off ℓ.extraCuts 6)).take r.extras.length = r.extras.drop (off ℓ.extraCuts 6) :=
-    List.take_of_length_le (by simp)
+    (hs : s.md.other = r.extras.take m) (hX : MetaHead X) :
+    parseLoop (extrasLines ((r.extras.drop m).take c) bl ++ X) s
+      = parseLoop X { s with md := { s.md with other := r.extras.take (m + c) } } := by
+  obtain ⟨h1, h2⟩ := slice_keys r.extras m c hd
+  rw [parseLoop_extras _ _ X s (fun e hm => he e (List.mem_of_mem_drop (List.mem_of_mem_take hm))) h1
+    (by rw [hs]; exact h2) hX, hs, List.take_add]
+
+/-- all the extra blocks that are left: `Other` held the first `m`, then holds them all -/
+theorem parseLoop_extrasTail (r : GbRec) (m : Nat) (bl : List (List Nat)) (X : List Str) (s : Sequence)
+    (he : ∀ e ∈ r.extras, isExtraKey e.1 = true ∧ isText e.2 = true) (hd : distinct (r.extras.map (·.1)) = true)
+    (hs : s.md.other = r.extras.take m) (hX : MetaHead X) :
+    parseLoop (extrasLines (r.extras.drop m) bl ++ X) s = parseLoop X { s with md := { s.md with other := r.extras } } := by
+  have := slice_keys r.extras m (r.extras.length) hd
+  have hfull : (r.extras.drop m).take r.extras.length = r.extras.drop m := List.take_of_length_le (by simp)
   rw [hfull] at this
   obtain ⟨h1, h2⟩ := this
-  unfold extraRest
   rw [parseLoop_extras _ _ X s (fun e hm => he e (List.mem_of_mem_drop hm)) h1 (by rw [hs]; exact h2) hX, hs,
     List.take_append_drop]
 
 /-! ### the whole record -/
-
-/-- what the parser's maps keep of a record: as `toSequence`, with `toFeatureM` for the features -/
-def toSequenceM (r : GbRec) : Sequence := { toSequence r with features := r.features.map toFeatureM }
 
 theorem wf_loose {r : GbRec} (h : wf r = true) :
     wfLoose r = true ∧ ∀ f ∈ r.features, distinct (f.quals.map (·.1)) = true := by
@@ -635,8 +689,13 @@ theorem parseLoop_layout_loose (r : GbRec) (ℓ : RecLayout) (tail : List Str) (
   obtain ⟨o1, o2, o3⟩ := originHead_facts ℓ
   have hfh : trimSpace (headOf (split featuresHeader c!" ")) = c!"FEATURES" := by decide
   -- the sections, from the end
+  have hO : FeatEnd (originHead ℓ :: (originLines r.seq ℓ.blockLen ℓ.perLine ++ c!"//" :: tail)) :=
+    ⟨_, _, rfl, o2, o3⟩
+  have hAF : FeatEnd (extraAfterFeat r ℓ ++ originHead ℓ :: (originLines r.seq ℓ.blockLen ℓ.perLine ++ c!"//" :: tail)) :=
+    FeatEnd_extras _ _ _ (fun e hm => hexk e (List.mem_of_mem_drop hm)) hO
   have hF : MetaHead (featuresHeader ::
-      (featsLines r.features ℓ.feats ++ originHead ℓ :: (originLines r.seq ℓ.blockLen ℓ.perLine ++ c!"//" :: tail))) :=
+      (featsLines r.features ℓ.feats ++ (extraAfterFeat r ℓ ++ originHead ℓ ::
+        (originLines r.seq ℓ.blockLen ℓ.perLine ++ c!"//" :: tail)))) :=
     ⟨_, _, rfl, by decide⟩
   have hE6 := MetaHead_extraRest r ℓ _ hexk hF
   have hR := MetaHead_refs 0 r.refs ℓ.refs _ hE6
@@ -675,12 +734,18 @@ theorem parseLoop_layout_loose (r : GbRec) (ℓ : RecLayout) (tail : List Str) (
   rw [parseLoop_sourceBlock _ _ _ _ _ _ _ hsrc horg hE5 rfl]
   rw [parseLoop_extraSlot r ℓ 5 _ _ hex' hexd rfl hR]
   rw [parseLoop_refs r.refs 0 ℓ.refs _ _ hrefs hE6]
-  rw [parseLoop_extraRest r ℓ _ _ hex' hexd rfl hF]
+  rw [show extraRest r ℓ = extrasLines ((r.extras.drop (off ℓ.extraCuts 6)).take (afterRefsCount r ℓ))
+      (ℓ.extras.drop (off ℓ.extraCuts 6)) from rfl, parseLoop_extrasSlice r _ _ _ _ _ hex' hexd rfl hF]
   -- FEATURES
   simp only [parseLoop]
-  rw [parseStep_features _ _ _ hfh, getFeatures_table_loose r.features ℓ.feats _ _ hfeat o2 o3]
+  obtain ⟨stopF, restF, hstopF, hmF, hsF⟩ := hAF
+  rw [hstopF, parseStep_features _ _ _ hfh, getFeatures_table_loose r.features ℓ.feats _ _ hfeat hmF hsF]
   simp only [Outcome.bind_ok']
-  rw [parseLoop_blank _ _ _ (blank_featsLines r.features ℓ.feats)]
+  rw [parseLoop_blank _ _ _ (blank_featsLines r.features ℓ.feats), ← hstopF]
+  -- the extra blocks after the feature table
+  rw [show extraAfterFeat r ℓ = extrasLines (r.extras.drop (off ℓ.extraCuts 6 + afterRefsCount r ℓ))
+      (ℓ.extras.drop (off ℓ.extraCuts 6 + afterRefsCount r ℓ)) from rfl,
+    parseLoop_extrasTail r _ _ _ _ hex' hexd rfl hO.metaHead]
   -- ORIGIN
   simp only [parseLoop]
   have hseq' : r.seq.all isLetter = true := by rw [List.all_eq_true]; exact hseq
